@@ -331,6 +331,12 @@ where
 {
     fn read(&mut self, buf: &mut [u8]) -> std::io::Result<usize> {
         self.fill_inner()?;
+        if let Self::Data { buffer, .. } = self {
+            if !buffer.has_remaining() {
+                // The source was empty: move on to the MDC instead of signalling EOF.
+                self.fill_inner()?;
+            }
+        }
         match self {
             Self::Prefix { prefix, .. } => {
                 // Prefix
